@@ -55,6 +55,10 @@ type composableRunnable struct {
 
 	isPassthrough bool
 
+	// subNodes are the nodes of a nested graph (nil for a component): they let the enclosing graph check a
+	// designated path into the nested graph when the call starts, whether or not the run reaches it
+	subNodes map[string]*chanCall
+
 	meta *executorMeta
 
 	// only available when in Graph node
